@@ -90,6 +90,20 @@ func newSimWorld(sc *Scenario) *simWorld {
 					_ = k.StartRequestContext(ctx, others[i], consumers[i])
 				}
 			}
+			if sc.Rig.ReentrantCapSiblings {
+				var others [][]byte
+				var consumers []sdk.AccAddress
+				k.IterateRequestContexts(ctx, func(oid tmbytes.HexBytes, oc st.RequestContext) bool {
+					if oc.ModuleName == mod && !bytes.Equal(oid, id) {
+						others = append(others, append([]byte{}, oid...))
+						consumers = append(consumers, oc.Consumer)
+					}
+					return false
+				})
+				for i := range others {
+					_ = k.UpdateRequestContext(ctx, others[i], nil, 0, sdk.NewCoins(sdk.NewInt64Coin(denom, 1)), 0, 0, 0, consumers[i])
+				}
+			}
 			if sc.Rig.ReentrantPauseSiblings {
 				var others [][]byte
 				var consumers []sdk.AccAddress
